@@ -340,6 +340,12 @@ class Judge:
         features.update(self.struct_features)
         if direction == "p" and self.cat == "TAB-INTP" and refcompu.is_num(value):
             features.update(self._tab_position(F(value)))
+        pv = feat.pop("image", value if direction == "p" else None)
+        if self.cat in ("LINEAR", "SCALE-LINEAR") and refcompu.is_int(pv) and self.pt in INT_TYPES:
+            # the physical value coincides with the rounded image of an OPEN limit
+            features["p_is_rounded_open_limit_image"] = any(
+                l.bounded and l.kind == "OPEN" and pv in nearest_ints_tol(s.f(l.value), s.f_tol(l.value))
+                for s in self.ru.segs for l in (s.lo, s.hi))
         if direction == "p" and self.cat in ("LINEAR", "SCALE-LINEAR") and refcompu.is_num(value):
             features["p_is_const_of_open_scale"] = any(
                 s.slope == 0 and s.off / s.den == F(value) and
@@ -469,14 +475,9 @@ class Judge:
         except (Invalid, Unspecified, NotInvertible):
             self.classes.add("roundtrip-ref-undefined")
             return
-        if self.it in INT_TYPES:
-            if v not in rb.ints():
-                self.classes.add("roundtrip-ref-ambiguous")
-                return
-        elif self.it in FLOAT_TYPES:
-            if not rb.admits(v):
-                self.classes.add("roundtrip-ref-ambiguous")
-                return
+        if self.it in NUM_TYPES and not rb.admits(v):
+            self.classes.add("roundtrip-ref-ambiguous")
+            return
         ok, vp = self.call(cm.is_valid_physical_value, p)
         if not ok or not vp:
             tie = False
@@ -487,7 +488,7 @@ class Judge:
                 pass
             self.fail("image-valid", f"image {p!r} of the valid internal value {v!r} is not declared valid "
                       f"({'raised ' + type(vp).__name__ if not ok else vp})", path, "i", v,
-                      mode="tie" if tie else "image-invalid", image_float=isinstance(p, float))
+                      mode="tie" if tie else "image-invalid", image_float=isinstance(p, float), image=p)
             return
         ok, b = self.call(cm.convert_physical_to_internal, p)
         if not ok:
@@ -526,21 +527,23 @@ class Judge:
         from odxtools.encodestate import EncodeState
         if rb.kind != "num":
             return
-        cands = rb.ints()
-        raws = [self._raw(n) for n in cands]
-        if not cands or any(r is None for r in raws):
-            return
+        bounds = rb.int_bounds()
+        lo, hi = int_domain(self.ir)
+        if bounds is None or bounds[0] < lo or bounds[1] > hi:
+            return                       # some admissible result does not fit the coded type (C04's business)
+        nbytes = int(self.ir.get("bits", 8)) // 8
         self.classes.add("dop:encode")
         es = EncodeState(coded_message=bytearray())
         ok, e = self.call(dop.encode_into_pdu, p, es)
         if not ok:
             self.fail("dop-encode", f"encode_into_pdu({p!r}) raised {type(e).__name__}: {e}; the value is declared "
-                      f"valid and converts to {cands}", path, "p", p, exc=type(e).__name__, exc_obj=e)
-        elif bytes(es.coded_message) not in raws:
-            got = int.from_bytes(bytes(es.coded_message), "big", signed=self.it == "A_INT32") \
-                if len(es.coded_message) == len(raws[0]) else None
-            self.fail("dop-encode", f"encode_into_pdu({p!r}) = {bytes(es.coded_message).hex()}, expected one of "
-                      f"{[r.hex() for r in raws]}", path, "p", p, mode=self._mode(rb, got) if got is not None else "other")
+                      f"valid and converts to {rb.describe()}", path, "p", p, exc=type(e).__name__, exc_obj=e)
+            return
+        raw = bytes(es.coded_message)
+        got = int.from_bytes(raw, "big", signed=self.it == "A_INT32") if len(raw) == nbytes else None
+        if got is None or not rb.admits(got):
+            self.fail("dop-encode", f"encode_into_pdu({p!r}) = {raw.hex()}, expected {rb.describe()}", path, "p", p,
+                      mode=self._mode(rb, got) if got is not None else "other")
 
     # -- physical side -------------------------------------------------------------
     def mc_image(self, p) -> bool:
@@ -785,6 +788,10 @@ class Judge:
                 self.classes.add("tabintp:int-result")
         if not self.neutral:
             self.classes.add("one-sided-scale")
+
+
+def nearest_ints_tol(y: F, tol: F):
+    return refcompu.nearest_ints(y - tol, y + tol)
 
 
 def _dedup(xs):
